@@ -27,6 +27,10 @@ CHECKS['C08'] = dict(engine='progenum', category='exploration', section='3/C08',
    technique='exhaustive finite product: 12 operators x 14 element values x all argument shapes, plus every and/or/not expression up to a nesting bound, on the real evaluator and the real pipeline against a reference evaluator',
    text='The full grid of condition operators x element values (missing, null, booleans, zero, negative, fraction, 1e308, numeric text, text, empty string, lists, map) x arguments of every JSON kind (all ordered/unordered/equal bound pairs, wrong-length lists, non-numeric bounds) is evaluated directly by logic.MatchesHasExpression and through V().has() on a stored graph, against a reference evaluator written from operations.md; all and/or/not expressions of nesting <=2 (3 thorough) over 4 atoms are checked by truth table, and De Morgan, double negation and operand order are checked as identities on the implementation.',
    note='Reference evaluator refsem/has.go is the trusted reading of the documentation; without() with a non-list argument is treated as undefined (crash freedom only).')
+CHECKS['C05'] = dict(engine='progenum', category='exploration', section='3/C05',
+   technique='exhaustive enumeration of the finite product method x transport x credentials x graph x policy on the real interceptor chain (in-memory gRPC server and generated direct clients), against a reference policy evaluator',
+   text='Every method listed in the four generated service descriptors (read from the descriptors, so a new RPC is included automatically) is invoked through a real grpc.Server with the production interceptor chain on an in-memory listener and through the generated DirectClient shims used by the HTTP gateway, with 4 credentials x 2 graphs x 10 policies (no accounts, allow-all, deny-all, wildcard-graph, wildcard-action, one per operation class on g1); BulkAdd additionally with 8 element streams. The stub handler must run iff the reference policy grants (user, graph named in the request, operation class); denied calls must fail with an authentication/permission status.',
+   note='Operation class and request graph come from an independent rule in c05.go; real Casbin enforcer (model of test/model.conf) and real BasicAuth in the loop; the unexported request-logging interceptors are not in the chain.')
 NA_REASON = 'check not built yet in this session (planned in DESIGN.md section 3); nothing is claimed for it'
 
 m = {
